@@ -156,6 +156,28 @@ def h_eqs(ctx: Any, n: int, m: int, twin: bool = False) -> None:
         ctx.check(O.eq(O.inst(O.expand(p), {k: O.expand(v) for k, v in res.items()}), O.expand(i)), 'C13.match.unsound', lambda: f'{res!r}')
 
 
+def h_respelled(ctx: Any, n: int, twin: bool = False) -> None:
+    """completeness when one metavariable has to be bound to two spellings of one pattern (a notation application and
+    its expansion are equal): non-linear pattern, pre-supplied binding, second equation"""
+    from proof_generation import pattern as P
+
+    p = gens.gen(ctx, n, _prof('arg'))
+    ctx.assume('Instantiate' in gens.kinds(p))
+    te = O.expand(p)
+    pe = gens.from_term(te)
+    first, second = (p, pe) if ctx.choose(2, 'spelling met first') == 0 else (pe, p)
+    ctx.count('reached')
+    ctx.sample({'pattern': repr(p), 'expansion': repr(pe)})
+    if twin:
+        ctx.violation('TWIN')
+    r1 = P.match_single(P.Implies(P.MetaVar(0), P.MetaVar(0)), P.Implies(first, second))
+    ctx.check(r1 is not None and O.eq(O.expand(r1[0]), te), 'C13.match_single.incomplete[respelled repeated metavariable]', lambda: f'phi0 -> phi0 against {first!r} -> {second!r}: {r1!r}')
+    r2 = P.match_single(P.MetaVar(0), second, {0: first})
+    ctx.check(r2 is not None and O.eq(O.expand(r2[0]), te), 'C13.match_single.incomplete[respelled pre-supplied binding]', lambda: f'phi0 against {second!r} with phi0 := {first!r}: {r2!r}')
+    r3 = P.match([(P.MetaVar(0), first), (P.Implies(P.MetaVar(0), P.MetaVar(1)), P.Implies(second, first))])
+    ctx.check(r3 is not None and O.eq(O.expand(r3[0]), te), 'C13.match.incomplete[respelled binding carried between equations]', lambda: f'{first!r} / {second!r}: {r3!r}')
+
+
 def h_eqs_sound(ctx: Any, n: int, m: int, twin: bool = False) -> None:
     """arbitrary systems of two equations (solvable or not, sides may be equal, may share metavariables):
     whatever match() returns solves every equation"""
@@ -304,6 +326,8 @@ def levels(tier: str) -> list[dict]:
         L.append(dict(label=f'complete-after-sibling-problems/{pn}/n={n},val<=1', module=M, fn='h_complete', kwargs=dict(n=n, m=1, prof=pn, history=True), budget_s=bud, required=True, twin=False))
     for pn, n in ([('schem_raw', 3), ('schem_nt', 2)] if q else [('schem_raw', 3), ('schem_raw', 4), ('schem_nt', 2), ('schem_nt', 3), ('schem', 2)]):
         L.append(dict(label=f'sound-after-sibling-problems/{pn}/n={n},inst<=2', module=M, fn='h_sound', kwargs=dict(n=n, m=2, prof=pn, history=True), budget_s=bud, required=True, twin=False))
+    for n in ([2, 3] if q else [2, 3, 4]):
+        L.append(dict(label=f'complete/respelled-occurrences/n={n}', module=M, fn='h_respelled', kwargs=dict(n=n), budget_s=bud, required=n <= 3, twin=False))
     L.append(dict(label=f'equations-sound/2 arbitrary eqs,n<=3,inst<=3', module=M, fn='h_eqs_sound', kwargs=dict(n=3, m=3), budget_s=bud, required=True, twin=False))
     L.append(dict(label='equations/2 eqs,n<=2,val<=1', module=M, fn='h_eqs', kwargs=dict(n=2 if q else 3, m=1), budget_s=bud, required=True))
     for i in range(n_notations()):
